@@ -118,8 +118,14 @@ class ConfigList(ComposedNode, list):
 
     def insert(self, index, value):
         index = self._validate_index(index, strict=False)
-        self._children = { ((idx+1) if idx >= index else idx): value for idx, value in self._children.items() }
-        value = ComposedNode.ayns.set_child(self, index, value)
+        before = self._children
+        self._children = { ((idx+1) if idx >= index else idx): value for idx, value in before.items() }
+        try:
+            value = ComposedNode.ayns.set_child(self, index, value)
+        except:
+            # a value that cannot become a node: nothing was inserted, the numbering stays as it was
+            self._children = before
+            raise
         list.insert(self, index, value)
         # keep the child table in list order, it is what tree walks and evaluation iterate over
         self._children = { idx: child for idx, child in enumerate(list.__iter__(self)) }
